@@ -4,6 +4,7 @@
    Models: CVarint, Zigzag, Names, Details, Collection (transcriptions of ragc-common/src/collection.rs). *)
 From Ragc Require Import Mach Consts_collection CVarint Zigzag Names Details Collection.
 From Ragc Require Import CVarint_proofs Zigzag_proofs Names_proofs Details_proofs Collection_proofs.
+From Coq Require FinFun.
 Open Scope N_scope.
 
 (* ---- CollectionVarInt: every u32, whatever follows it in the stream *)
@@ -150,30 +151,17 @@ Definition ex_sample (i : nat) : sample :=
     [ mkContig [99;104;114;49;32;108;101;110;61; 48 + d mod 10] [ mkSeg 16 d false 60031; mkSeg 17 (d / 2) true 59000 ];
       mkContig [99;104;114;50;32;108;101;110;61; 48 + d mod 7] [ mkSeg 16 0 false 60031 ] ].
 Definition ex_coll : coll := mkColl (map ex_sample (seq 0 120)) [] 60000 31 0 0.
-Ltac wf_step :=
-  match goal with
-  | |- Forall _ [] => apply Forall_nil
-  | |- Forall _ (_ :: _) => apply Forall_cons
-  | |- _ /\ _ => split
-  | |- _ \/ _ => left
-  | |- _ < _ => reflexivity
-  | |- _ <= _ => apply N.leb_le; reflexivity
-  | |- _ = _ => reflexivity
-  | |- sample_wf _ => unfold sample_wf
-  | |- batch_ok _ _ _ _ => unfold batch_ok
-  | |- batch_small _ _ _ _ => unfold batch_small; vm_compute
-  | |- _ => progress cbv beta
-  | |- _ => progress cbn [scontigs cname csegs sg si sl sname]
-  end.
 Example batches_nonvacuous_hyps :
   (forall l x, zd1 (zc1 l x) = Some x) /\ (forall l x, zc1 l x <> []) /\
   Forall (batch_ok zc1 60000 31) (chunks 120 50 (samples ex_coll)) /\
   NoDup (map sname (samples ex_coll)).
 Proof.
   split; [reflexivity|]. split; [discriminate|]. split.
-  - vm_compute chunks. repeat wf_step.
-  - apply (NoDup_map_inv (fun n => nth 1 n 0 * 100 + nth 2 n 0 * 10 + nth 3 n 0)).
-    vm_compute. repeat (apply NoDup_cons; [cbn; intuition discriminate|]). apply NoDup_nil.
+  - apply (forallb_Forall (batch_okb zc1 60000 31)); [apply batch_okb_ok|]. vm_compute. reflexivity.
+  - apply (NoDup_map_inv (fun n => nth 1 n 0 * 100 + nth 2 n 0 * 10 + nth 3 n 0 - 5328)).
+    replace (map (fun n => nth 1 n 0 * 100 + nth 2 n 0 * 10 + nth 3 n 0 - 5328) (map sname (samples ex_coll)))
+      with (map N.of_nat (seq 0 120)) by (vm_compute; reflexivity).
+    apply FinFun.Injective_map_NoDup; [intros a b; apply Nat2N.inj | apply seq_NoDup].
 Qed.
 Example batches_nonvacuous :
   match store_all zc1 50 ex_coll arch_empty with
